@@ -55,6 +55,54 @@ def c09(tier):
     obs += [B.main_ob("C09", "FILES", ndebug=True)]
     return obs, dict(assumptions=BASIC_ASSUME, precheck=B.oracle_precheck)
 
+# ----------------------------------------------------------------------------- dfs/*.cc
+import cxx_checks as X
+CXX_ASSUME = [
+    "the code checked is the LLVM IR clang-14 -O1 produces for the real dfs/*.cc (same -std=c++17, -DUSE_ZLIB, -DNDEBUG as the pinned build); "
+    "the shipped binary is built by g++ -O2, so compiler-specific exploitation of undefined behaviour is outside the claim",
+    "tools/ir2c.py translation (LLVM nsw/nuw flags are ignored: arithmetic wraps) -- validated on every run by running the gcc-built generated C "
+    "and the g++-built real code on the same vectors",
+    "stubs/vf_stubs.c: operator new never fails; out-of-line libstdc++ string members, C++ EH runtime and C-locale ctype modelled by hand",
+]
+W_CAT = "w_catalog.cc"
+# exception-message construction (std::string concatenation with data-dependent lengths) is irrelevant to every
+# property and costs tens of millions of clauses: the constructors' bodies are cut (object left zeroed).
+EXC_CTORS = [r"^_ZN3DFS13BadFileSystemC[12]E", r"^_ZN3DFS13BaseExceptionC[12]E", r"^_ZN3DFS11FileIOErrorC[12]E", r"^_ZN3DFS12UnrecognizedC[12]E"]
+CAT_FUNCS = ["dfs/dfs_catalog.h:CatalogEntry::{load_address,exec_address,file_length,start_sector,is_locked,directory,metadata_word}",
+             "dfs/dfs_catalog.cc:CatalogEntry::CatalogEntry", "CatalogEntry::last_sector", "sign_extend"]
+
+def ob_entry_fields(pid):
+    return X.cxx_ob(pid, "entry_fields", W_CAT, "h_entry_fields",
+        "all 16 name+metadata bytes symbolic: every accessor equals the bit-field definition of the DFS catalogue (each 2-bit field of the mixed byte "
+        "decoded independently), last_sector arithmetic, sign extension at bit 17",
+        "128 symbolic bits, no further bound", CAT_FUNCS, unwind=10)
+
+def ob_sector_walk(pid, maxlen):
+    k = maxlen // 256 + 2
+    return X.cxx_ob(pid, "sector_walk.len%d" % maxlen, W_CAT, "h_sector_walk",
+        "visit_file_body_piecewise on a recording medium and visitor: sectors start, start+1, ...; pieces 256,...,256,len-256(k-1); "
+        "total = catalogued length; bytes handed on are those of the sector just read; unreadable sector => BadFileSystem; visitor can stop the walk",
+        "metadata bytes symbolic with file length <= %d (<= %d sectors), failure/stop points symbolic, one symbolic probe offset per piece" % (maxlen, k - 1),
+        CAT_FUNCS + ["CatalogEntry::visit_file_body_piecewise", "std::function invoker", "BadFileSystem::BadFileSystem (dfs/exceptions.cc)"],
+        unwind=10, unwindset=[("read_block", 257), ("visit_file_body", k), ("h_sector_walk", 9), ("X_strlen", 64), ("X_mem", 64)],
+        defines=("NDEBUG", "WALK_MAXLEN=%d" % maxlen), weight_gb=3, noop_re=EXC_CTORS)
+
+def ob_volume_access(pid):
+    return X.cxx_ob(pid, "volume_access", W_CAT, "h_volume_access",
+        "Volume::Access::read_block(lba) forwards origin+lba to the disc iff lba < volume length, otherwise fails without touching the disc",
+        "origin, length 32-bit symbolic, lba 64-bit symbolic", ["dfs/dfs_volume.h:Volume::Access::read_block"],
+        unwind=10, unwindset=[("read_block", 257)])
+
+@prop("C01")
+def c01(tier):
+    obs = [ob_entry_fields("C01"), ob_sector_walk("C01", 1024 if tier == "quick" else 4096), ob_volume_access("C01")]
+    return obs, dict(assumptions=CXX_ASSUME)
+
+@prop("C17")
+def c17(tier):
+    obs = [ob_volume_access("C17")]
+    return obs, dict(assumptions=CXX_ASSUME)
+
 def cli_replay(pid, ob, values, outdir):
     kind = ob.result["spec"]["cli"]["kind"]
     if kind == "basic-file":
